@@ -622,6 +622,54 @@ theorem trimLeftFuel_length : ∀ (fuel : Nat) (s : Bytes), (trimLeftFuel fuel s
     · exact Nat.le_refl _
     · exact Nat.le_trans (trimLeftFuel_length fuel _) (by simp)
 
+/-! ### consumers of the attributed address -/
+
+theorem matchCidrZones_eq_any (N : Net Addr Prefix) (a : Addr) (z : Bytes) (ranges : List (MRange Prefix)) :
+    matchCidrZones N a z ranges = ranges.any (fun r => N.contains r.pfx a && zoneOK r z) := by
+  induction ranges with
+  | nil => rfl
+  | cons r rest ih =>
+    unfold matchCidrZones
+    simp only [List.any_cons, zoneOK, ih]
+    cases N.contains r.pfx a && (decide (r.zone = []) || decide (z = r.zone)) <;> simp
+
+/-- the first piece of `strings.Split(s, "%")` is `strings.Cut(s, "%")`'s `before` -/
+theorem splitAux_percent_head : ∀ (s acc : Bytes),
+    ∃ tail, splitAux percent s acc = (acc.reverse ++ cutZone s) :: tail
+  | [], acc => ⟨[], by simp [splitAux, cutZone]⟩
+  | b :: rest, acc => by
+    by_cases hb : b = percent
+    · exact ⟨splitAux percent rest [], by simp [splitAux, cutZone, hb]⟩
+    · obtain ⟨tail, ht⟩ := splitAux_percent_head rest (b :: acc)
+      exact ⟨tail, by simp [splitAux, cutZone, hb, ht]⟩
+
+theorem ipAndZone_fst (s : Bytes) : (ipAndZone s).1 = cutZone s := by
+  obtain ⟨tail, ht⟩ := splitAux_percent_head s []
+  unfold ipAndZone splitOn
+  rw [ht]
+  cases tail <;> simp
+
+/-- without a '%' there is no zone -/
+theorem splitAux_noPercent : ∀ (s acc : Bytes), cutZone s = s → splitAux percent s acc = [acc.reverse ++ s]
+  | [], acc, _ => by simp [splitAux]
+  | b :: rest, acc, h => by
+    by_cases hb : b = percent
+    · simp [cutZone, hb] at h
+    · have h' : cutZone rest = rest := by simpa [cutZone, hb] using h
+      simp [splitAux, hb, splitAux_noPercent rest (b :: acc) h']
+
+theorem ipAndZone_noZone (s : Bytes) (h : cutZone s = s) : ipAndZone s = (s, []) := by
+  unfold ipAndZone splitOn
+  rw [splitAux_noPercent s [] h]
+  simp
+
+/-- the consumers parse what `Addr.String` printed back to the same address, without zone -/
+theorem parseIPZone_printed (N : Net Addr Prefix) (hN : PrintsParseBack N) (a : Addr) :
+    parseIPZone N (N.toString a) = some (a, []) := by
+  unfold parseIPZone hostOrAll
+  rw [hN.noPort a]
+  simp only [ipAndZone_noZone _ (hN.noZone a), hN.back a]
+
 /-! ### the proxy retry loop -/
 
 theorem kVerifUp_ne : kXFF ≠ kVerifUp ∧ kXFP ≠ kVerifUp ∧ kXFH ≠ kVerifUp := by decide
